@@ -736,6 +736,207 @@ func runBroadcast(t *testing.T, p bcastRun, d *directObs) {
 	})
 }
 
+// ------------------------------------------------------------------ part E: subscribe / unsubscribe churn on the real broadcaster
+
+// churnOp happens in the quiet interval after block index After has been delivered.
+type churnOp struct {
+	After int    `json:"after"`
+	Op    string `json:"op"`  // "sub" | "unsub"
+	Who   int    `json:"who"` // subscriber number
+}
+
+type churnRun struct {
+	Genesis  uint64    `json:"genesis"`
+	Blocks   int       `json:"blocks"` // block indices 0..Blocks are broadcast
+	Initial  int       `json:"initial"`
+	MaxDelay int       `json:"max_delay_ms"` // must stay below half the cadence (40 ms)
+	Ops      []churnOp `json:"ops"`
+	Listener bool      `json:"listeners"` // attach real Listeners instead of raw subscriptions
+}
+
+const churnCadence = 40 * time.Millisecond
+
+type churnSub struct {
+	who      int
+	id       int
+	ch       chan chain.Block
+	lst      *chain.Listener
+	events   <-chan chain.ChainEvent
+	from, to int // first / last block index it is attached for (to = -1: until the end)
+	mu       sync.Mutex
+	got      []chain.Block
+	closed   bool
+	stop     chan struct{}
+	ended    chan struct{}
+}
+
+func runChurn(t *testing.T, p churnRun, d *directObs) {
+	synctest.Test(t, func(t *testing.T) {
+		conf := config.Blocks{Genesis: new(big.Int).SetUint64(p.Genesis), Cadence: config.Duration(churnCadence), Duration: p.Blocks}
+		bb := chain.NewBlockBroadcaster(conf, p.MaxDelay, quiet, nil)
+		subs := map[int]*churnSub{}
+		var all []*churnSub
+		active := map[int]*churnSub{} // by subscription id
+		attach := func(who, from int) {
+			s := &churnSub{who: who, from: from, to: -1, stop: make(chan struct{}), ended: make(chan struct{})}
+			if p.Listener {
+				s.lst = chain.NewListener(bb, quiet)
+				noFinalizer(s.lst)
+				s.events = s.lst.Subscribe(chain.BlockChannel)
+			} else {
+				s.id, s.ch = bb.Subscribe(p.MaxDelay > 0)
+				if other, dup := active[s.id]; dup {
+					d.violate("Subscribe handed out the id of a subscription that is still active", map[string]any{"run": p, "id": s.id, "new": who, "holder": other.who})
+				}
+				active[s.id] = s
+			}
+			go func() {
+				defer close(s.ended)
+				for {
+					select {
+					case b, ok := <-s.ch:
+						if !ok {
+							s.mu.Lock()
+							s.closed = true
+							s.mu.Unlock()
+							return
+						}
+						s.mu.Lock()
+						s.got = append(s.got, b)
+						s.mu.Unlock()
+					case ev := <-s.events:
+						if b, ok := ev.Event.(chain.Block); ok {
+							s.mu.Lock()
+							s.got = append(s.got, b)
+							s.mu.Unlock()
+						}
+					case <-s.stop:
+						return
+					}
+				}
+			}()
+			subs[who] = s
+			all = append(all, s)
+		}
+		detach := func(who, after int) {
+			s := subs[who]
+			if s == nil || s.to >= 0 {
+				return
+			}
+			s.to = after
+			if p.Listener {
+				s.lst.VerifStop()
+			} else {
+				bb.Unsubscribe(s.id)
+				delete(active, s.id)
+			}
+		}
+		for i := 0; i < p.Initial; i++ {
+			attach(i, 0)
+		}
+		synctest.Wait()
+		done := bb.Start()
+		time.Sleep(3 * churnCadence / 4)
+		for i := 0; i <= p.Blocks; i++ {
+			synctest.Wait() // block i (broadcast at i*cadence) has been delivered to everyone attached
+			for _, op := range p.Ops {
+				if op.After != i {
+					continue
+				}
+				if op.Op == "sub" {
+					attach(op.Who, i+1)
+				} else {
+					detach(op.Who, i)
+				}
+				synctest.Wait()
+			}
+			if i < p.Blocks {
+				time.Sleep(churnCadence)
+			}
+		}
+		<-done
+		bb.Stop()
+		synctest.Wait()
+
+		ref := map[uint64][32]byte{}
+		for _, s := range all {
+			s.mu.Lock()
+			last := p.Blocks
+			if s.to >= 0 {
+				last = s.to
+			}
+			var want, got []uint64
+			for i := s.from; i <= last; i++ {
+				want = append(want, p.Genesis+uint64(i))
+			}
+			for _, b := range s.got {
+				n := b.Number.Uint64()
+				got = append(got, n)
+				if h, ok := ref[n]; ok && h != b.Hash {
+					d.violate("two subscribers saw different hashes for one block number (churn run)", map[string]any{"run": p, "block": n})
+				}
+				ref[n] = b.Hash
+			}
+			sort.Slice(got, func(i, j int) bool { return got[i] < got[j] })
+			if fmt.Sprint(got) != fmt.Sprint(want) {
+				d.violate("a subscriber did not receive exactly the blocks broadcast while it was attached", map[string]any{
+					"run": p, "subscriber": s.who, "attached_from_index": s.from, "attached_to_index": last, "want": fmt.Sprint(want), "got": fmt.Sprint(got)})
+			}
+			if !p.Listener && s.to >= 0 && !s.closed {
+				d.violate("the channel of an unsubscribed subscriber was not closed", map[string]any{"run": p, "subscriber": s.who})
+			}
+			if !p.Listener && s.to < 0 && s.closed {
+				d.violate("the channel of a subscriber that is still attached was closed", map[string]any{"run": p, "subscriber": s.who})
+			}
+			d.evals += len(want)
+			s.mu.Unlock()
+		}
+		for _, s := range all {
+			if p.Listener && s.to < 0 {
+				s.lst.VerifStop()
+			}
+			close(s.stop)
+			<-s.ended
+		}
+		synctest.Wait()
+	})
+}
+
+func churnRuns(r *Rng, extra int) []churnRun {
+	runs := []churnRun{
+		// subscribe A, subscribe B, unsubscribe A, subscribe C; later B leaves too
+		{Genesis: 98, Blocks: 7, Initial: 2, Ops: []churnOp{{After: 1, Op: "unsub", Who: 0}, {After: 2, Op: "sub", Who: 2}, {After: 4, Op: "unsub", Who: 1}}},
+		{Genesis: 98, Blocks: 7, Initial: 2, MaxDelay: 15, Ops: []churnOp{{After: 1, Op: "unsub", Who: 0}, {After: 2, Op: "sub", Who: 2}, {After: 4, Op: "unsub", Who: 1}}},
+		{Genesis: 98, Blocks: 7, Initial: 2, MaxDelay: 15, Listener: true, Ops: []churnOp{{After: 1, Op: "unsub", Who: 0}, {After: 2, Op: "sub", Who: 2}}},
+		{Genesis: 995, Blocks: 10, Initial: 0, Ops: []churnOp{{After: 0, Op: "sub", Who: 0}, {After: 0, Op: "sub", Who: 1}, {After: 3, Op: "unsub", Who: 0}, {After: 3, Op: "sub", Who: 2},
+			{After: 5, Op: "unsub", Who: 2}, {After: 5, Op: "sub", Who: 3}, {After: 5, Op: "sub", Who: 4}, {After: 8, Op: "unsub", Who: 1}}},
+		{Genesis: 5, Blocks: 6, Initial: 3, Ops: []churnOp{{After: 2, Op: "unsub", Who: 0}, {After: 2, Op: "unsub", Who: 1}, {After: 2, Op: "unsub", Who: 2}, {After: 4, Op: "sub", Who: 3}}},
+	}
+	for k := 0; k < extra; k++ {
+		p := churnRun{Genesis: []uint64{3, 96, 990, 99995}[r.Intn(4)], Blocks: 6 + r.Intn(14), Initial: r.Intn(4), MaxDelay: []int{0, 0, 10, 19}[r.Intn(4)], Listener: r.Chance(1, 4)}
+		next := p.Initial
+		live := []int{}
+		for i := 0; i < p.Initial; i++ {
+			live = append(live, i)
+		}
+		for i := 0; i < p.Blocks; i++ {
+			for k := 0; k < r.Intn(3); k++ {
+				if len(live) > 0 && r.Bool() {
+					j := r.Intn(len(live))
+					p.Ops = append(p.Ops, churnOp{After: i, Op: "unsub", Who: live[j]})
+					live = append(live[:j], live[j+1:]...)
+				} else {
+					p.Ops = append(p.Ops, churnOp{After: i, Op: "sub", Who: next})
+					live = append(live, next)
+					next++
+				}
+			}
+		}
+		runs = append(runs, p)
+	}
+	return runs
+}
+
 // ------------------------------------------------------------------ test
 
 func TestC19(t *testing.T) {
@@ -843,6 +1044,16 @@ func TestC19(t *testing.T) {
 			d.keys[fmt.Sprintf("bcast/%d/%d/%d/%d", p.Genesis, p.Blocks, p.Listeners, p.MaxDelay)] = true
 		}
 		samples = append(samples, runs[1])
+		churnExtra := 10
+		if EnvTier() == "thorough" {
+			churnExtra = 60
+		}
+		for _, p := range churnRuns(r, churnExtra) {
+			runChurn(t, p, d)
+			d.count("churn_runs", 1)
+			d.count("churn_ops", len(p.Ops))
+			d.keys[fmt.Sprintf("churn/%d/%d/%d/%d/%v", p.Genesis, p.Blocks, p.Initial, len(p.Ops), p.Listener)] = true
+		}
 	}
 	keys := []string{}
 	for k := range d.keys {
